@@ -71,10 +71,16 @@ def rule_templates():
         ts.append(E(name, params, expr) if expr is not None else T(name, params, body))
 
     # assignOp (statement rewrites): pure, float, string, impure index, pointer
-    for stmt in ("x = x + 2", "x = x - y", "x = x * y", "x = x << 1", "x = x &^ y", "x = x % 3", "x = x | y"):
+    for stmt in ("x = x + 2", "x = x - y", "x = x * y", "x = x << 1", "x = x &^ y", "x = x % 3", "x = x | y", "x = y + x", "x = 2 * x", "x = y - x", "x = y / (x | 1)"):
         add(I2, body="\t%s\n\treturn fmt.Sprint(x, y, fx())" % stmt)
     add(F2, body="\tp = p - 1.5\n\tq = q * p\n\treturn fmt.Sprint(p, q, fx())")
     add(S2, body="\ts = s + t\n\treturn fmt.Sprint(s, fx())")
+    add(S2, body="\ts = t + s\n\treturn fmt.Sprint(s, fx())")
+    add(S2, body="\ts = t + s + t\n\treturn fmt.Sprint(s, fx())")
+    add(F2, body="\tp = q + p\n\tq = 2 * q\n\treturn fmt.Sprint(p, q, fx())")
+    add([("a", "Str"), ("b", "Str")], expr="fmt.Sprint(a)")
+    add([("a", "Str"), ("b", "Str")], expr='fmt.Sprintf("%s", a)')
+    add([("a", "Str")], body="\tvar out string = fmt.Sprint(a)\n\treturn out + fx()")
     add(I2, body="\txs := []int{1, 2, 3}\n\txs[g()%3] = xs[g()%3] + 1\n\treturn fmt.Sprint(xs, fx())")
     add([("ip", "*int")], body="\t*ip = *ip + 1\n\treturn fmt.Sprint(*ip, fx())")
     # emptyStringTest / sloppyLen
@@ -157,11 +163,17 @@ def run(ctx):
 
     templates = []
     term_of = {}
+    named_of = {}
     for i, s in enumerate(states):
         name = "b%05d" % i
         params = [("p", "float64"), ("q", "float64")] if has_float(s["e"]) else [("x", "int"), ("y", "int")]
         templates.append(ex.expr_template(name, params, render(s["e"])))
         term_of[name] = s
+        if has_float(s["e"]) and s["pred"] != s["e"] or (has_float(s["e"]) and i % 7 == 0):
+            # the same term over a DEFINED float type (type Fl float64): float-ness is a property of the underlying type
+            nname = "n%05d" % i
+            templates.append(ex.expr_template(nname, [("p", "Fl"), ("q", "Fl")], render(s["e"])))
+            named_of[nname] = s
     rules = rule_templates()
     templates += rules
     d = os.path.join(ctx.scratch, "c10gen")
